@@ -1452,6 +1452,108 @@ pub fn run_c16_continuation(ctx: &mut Ctx) {
     ctx.workers = saved;
 }
 
+// ---------------------------------------------------------------------------------------------
+// C10, black-box: the search started by `go` sees the whole game record
+
+/// The real binary's `position ... moves ...` + timed `go` against a DIRECT call of the search on the
+/// board and repetition record the position handler produces (in-process, virtual clock): the
+/// sequences of (depth, nodes, score, first pv move) must agree on their common prefix. Anything the
+/// command loop changes on the way from the record to the search thread (a filtered or stale record,
+/// a different root) shows as a difference in nodes or score.
+pub fn c10_uci_vs_direct(r: &crate::props::search::RepRecipe, slice: u16, st: &mut Stats) -> CaseResult {
+    let Some((start, moves)) = crate::props::search::rep_moves(r) else { return Ok(()) };
+    let Ok(case) = crate::props::search::make_case(&start, &moves) else { return Ok(()) };
+    if case.root.legal_moves().is_empty() {
+        return Ok(());
+    }
+    st.eval();
+    let names: Vec<String> = moves.iter().map(mv_name).collect();
+    let ptext = if names.is_empty() { format!("position fen {}", start.fen()) } else { format!("position fen {} moves {}", start.fen(), names.join(" ")) };
+    let white = case.root.stm == Color::White;
+    let clock = 100 + (30 + (slice % 70) as u64) * 30 * 10 / 8 + 1;
+    let go = if white { format!("go wtime {} btime 3000", clock) } else { format!("go btime {} wtime 3000", clock) };
+    let once = |st: &mut Stats| -> CaseResult {
+        let mut e = Engine::spawn()?;
+        e.handshake()?;
+        e.send(&ptext);
+        let a = do_go(&mut e, &go, plan_ms(&go, white))?;
+        e.send("quit");
+        let bb = info_sig(&a.infos);
+        // direct search far enough to cover what the binary reported
+        let mut budget = 4_000u64;
+        loop {
+            let run = crate::props::search::run_search(&case.board, &case.table, budget);
+            if run.panic.is_some() {
+                return Ok(()); // C07's subject
+            }
+            let lines: Vec<String> = run.lines.iter().map(|x| x.1.clone()).collect();
+            let direct = info_sig(&lines);
+            if let Some(i) = common_prefix_equal(&bb, &direct) {
+                return Err(format!("`{}` + `{}`: improvement #{} of the real binary is {:?} but a direct search on the same board and repetition record reports {:?}", ptext, go, i, bb[i], direct[i]));
+            }
+            if direct.len() >= bb.len() || run.queries < budget || budget > 40_000_000 {
+                break;
+            }
+            budget *= 4;
+        }
+        if case.table.table.values().any(|&v| v >= 2) {
+            st.label("history_with_a_repeated_position");
+        }
+        st.label("sessions_compared");
+        Ok(())
+    };
+    match once(st) {
+        Ok(()) => {
+            st.nontrivial(fp(&(&ptext, &go)));
+            Ok(())
+        }
+        Err(first) => {
+            // a late line of the search thread can trail into... nothing here (fresh process per run),
+            // but keep the reproduction rule of the other differential checks
+            if once(&mut Stats::new()).is_ok() {
+                st.label("mismatch_not_reproduced_on_a_further_attempt");
+                Ok(())
+            } else {
+                Err(first)
+            }
+        }
+    }
+}
+pub fn run_c10_blackbox(ctx: &mut Ctx) {
+    let t = ctx.tier;
+    let saved = ctx.workers;
+    ctx.workers = 8;
+    ctx.max_shrink_iters = 24;
+    run_prop(
+        ctx,
+        "go_through_uci_vs_direct_search_on_the_same_record",
+        || (crate::props::search::rep_strategy(40, true), any::<u16>()),
+        t.pick(260, 4_000),
+        |(r, slice), st| {
+            st.sample(|| json!({"uci_vs_direct": true, "game": crate::props::search::rep_json(r), "slice": slice}));
+            c10_uci_vs_direct(r, *slice, st)
+        },
+        |(r, slice)| json!({"uci_vs_direct": true, "game": crate::props::search::rep_json(r), "slice": slice}),
+    );
+    ctx.workers = saved;
+}
+pub fn replay_c10_blackbox(case: &Value) -> CaseResult {
+    let g = case.get("game").ok_or("no game")?;
+    let (start, moves) = parse_game_case(g)?;
+    let slice = case.get("slice").and_then(|x| x.as_u64()).unwrap_or(0) as u16;
+    // wrap the concrete game into a recipe-free call
+    let c = crate::props::search::make_case(&start, &moves)?;
+    if c.root.legal_moves().is_empty() {
+        return Ok(());
+    }
+    REPLAY_GAME.with(|r| *r.borrow_mut() = Some((start, moves)));
+    let dummy = crate::props::search::RepRecipe { walk: WalkRecipe { start: Start::Corpus(0), choices: vec![] }, cycles: 0, c1: 0, c2: 0, tail_cut: 0 };
+    let r = c10_uci_vs_direct(&dummy, slice, &mut Stats::new());
+    REPLAY_GAME.with(|r| *r.borrow_mut() = None);
+    r
+}
+thread_local! { pub static REPLAY_GAME: std::cell::RefCell<Option<(Pos, Vec<Move>)>> = std::cell::RefCell::new(None); }
+
 pub fn replay_c16(case: &Value) -> CaseResult {
     if case.get("continuation").is_some() {
         let start = case.get("start").and_then(|x| x.as_str()).ok_or("no start")?;
